@@ -796,8 +796,14 @@ def time_time(ex, st):
     return z3.Real(fresh_name('clock'))
 
 
+def b_set(ex, st, v=None):
+    if v is None:
+        return SetVal(lambda x: False)
+    raise Unsupported('set(iterable)')
+
+
 LIB.update({
-    'time.time': time_time,
+    'time.time': time_time, 'builtins.set': b_set,
     'builtins.len': _len, 'builtins.range': b_range, 'builtins.list': b_list, 'builtins.tuple': lambda ex, st, v=(): tuple(b_list(ex, st, v)) if isinstance(b_list(ex, st, v), list) else b_list(ex, st, v),
     'builtins.enumerate': lambda ex, st, v, start=0: EnumVal(v, start),
     'builtins.zip': lambda ex, st, *parts: ZipVal(list(parts)),
@@ -875,6 +881,17 @@ def call_method(ex, st, obj, name, args, kwargs, node):
                 if c is not False:
                     raise Unsupported('symbolic list.index')
             raise Unsupported('list.index miss')
+    if isinstance(obj, SetVal):
+        if name == 'intersection':
+            other = args[0]
+            if not isinstance(other, SetVal):
+                raise Unsupported('intersection with a non-set')
+            a, b = obj.has, other.has
+            return SetVal(lambda x: band(a(x), b(x)))
+        if name == 'union':
+            other = args[0]
+            a, b = obj.has, other.has
+            return SetVal(lambda x: bor(a(x), b(x)))
     if isinstance(obj, dict):
         if name == 'values':
             return list(obj.values())
